@@ -65,7 +65,9 @@ theorem exec_exitSeq (K : PCtx) (exitJ : Nat) (wf : K.WFS exitJ) (i : Nat) (a b 
     rw [hr.sp]; exact ofNat_add_W K.sp 2
   have hst : IAm.store K.env mem (mem.read 1 + IAm.W 2) (IAm.W 0) = some (mem.write (K.sp + 2) (IAm.W 0)) := by
     rw [hadr]; exact store_ofNat _ _ _ _ hs1 hs2
-  have s2 := Step.stai (env := K.env) (cfg (i + 0 + 1 + 1) (IAm.W 0) (mem.read 1) mem) io 2 _ h2 hst
+  have hne1 : (mem.read 1 + IAm.W 2).toNat ≠ 1 := by
+    rw [hadr]; exact ofNat_toNat_ne_one _ (by have := wf.sp_ge; omega) hs1
+  have s2 := Step.stai (env := K.env) (cfg (i + 0 + 1 + 1) (IAm.W 0) (mem.read 1) mem) io 2 _ h2 hst hne1
   refine ⟨cfg (i + 0 + 1 + 1 + 1) (IAm.W 0) (mem.read 1) (mem.write (K.sp + 2) (IAm.W 0)), ?_, ?_⟩
   · exact Steps.step _ _ _ _ _ _ s0 (Steps.step _ _ _ _ _ _ s1 (Steps.one s2))
   · apply Exit.svcExit
